@@ -87,7 +87,7 @@ def run_subprocess(argv, stdin_text, cwd):
 # ---------------------------------------------------------------------------
 # generation
 
-KEYS = ['a', 'b', 'c', 'key', 'x y', 'é', 'n1']
+KEYS = ['a', 'b', 'c', 'key', 'x y', 'é', 'n1', '\U0001f600k']      # (the last one: JSON text spells it as a surrogate pair)
 
 
 def gen_value(draw, d):
@@ -173,18 +173,18 @@ def toml_value(v):
     if isinstance(v, bool):
         return 'true' if v else 'false'
     if isinstance(v, str):
-        return json.dumps(v)
+        return json.dumps(v, ensure_ascii=False)      # (TOML has no surrogate-pair escapes)
     if isinstance(v, float):
         return repr(v)
     if isinstance(v, int):
         return str(v)
     if isinstance(v, list):
         return '[' + ', '.join(toml_value(x) for x in v) + ']'
-    return '{' + ', '.join('%s = %s' % (json.dumps(k), toml_value(x)) for k, x in v.items()) + '}'
+    return '{' + ', '.join('%s = %s' % (json.dumps(k, ensure_ascii=False), toml_value(x)) for k, x in v.items()) + '}'
 
 
 def toml_dumps(d):
-    return ''.join('%s = %s\n' % (json.dumps(k), toml_value(v)) for k, v in d.items())
+    return ''.join('%s = %s\n' % (json.dumps(k, ensure_ascii=False), toml_value(v)) for k, v in d.items())
 
 
 def serialise(value, fmt):
@@ -203,6 +203,13 @@ def gen_cli(draw):
     if draw(st.integers(0, 5)) == 0:
         value = draw(st.sampled_from([0, [], '', None, False, {}, [0]]))
     spec = gen_spec(draw, value, draw(st.sampled_from([0, 1, 2, 3])))
+    if isinstance(value, dict) and 'zblk' not in value and draw(st.sampled_from(range(12))) == 0:
+        value = dict(value)
+        value['zblk'] = 'line one\nline two\n'
+        spec = gen_spec(draw, value, draw(st.sampled_from([0, 1, 2]))) if draw(st.booleans()) else ['s', 'zblk']
+        return {'target': value, 'tformat': 'yaml', 'spec': spec, 'sformat': 'python' if has_tuple(spec) else draw(st.sampled_from(['python', 'json'])),
+                'tsource': draw(st.sampled_from(['argv', 'file', 'stdin-dash'])), 'ssource': 'argv', 'indent': None, 'scalar': False,
+                'raw_path': False, 'malform': None, 'yaml_block_tail': True}
     fmts = ['json', 'json', 'python', 'yaml'] + (['toml', 'toml'] if toml_ok(value) else [])
     sformat = 'python' if has_tuple(spec) else draw(st.sampled_from(['python', 'python', 'json']))
     return {'target': value, 'tformat': draw(st.sampled_from(fmts)), 'spec': spec, 'sformat': sformat,
@@ -224,7 +231,12 @@ def make_invocation(recipe, tmp):
         spec_text = repr(spec)
         if isinstance(spec, str) and recipe['raw_path'] and spec and spec[0] not in '"\'[{(' and not spec.startswith('-'):
             spec_text = spec            # trivial path access: bare text
-    target_text = serialise(recipe['target'], recipe['tformat'])
+    if recipe.get('yaml_block_tail'):
+        # hand-written YAML: the document ends in a block scalar, whose value keeps its final newline
+        rest = dict((k, v) for k, v in recipe['target'].items() if k != 'zblk')
+        target_text = (serialise(rest, 'yaml') if rest else '') + 'zblk: |\n  line one\n  line two\n'
+    else:
+        target_text = serialise(recipe['target'], recipe['tformat'])
     malform = recipe['malform']
     if malform == 'truncate':
         target_text = {'json': '{"a": [1, 2', 'python': "{'a': [1, 2", 'yaml': '{a: [1, 2', 'toml': 'a = [1, 2'}[recipe['tformat']]
